@@ -5,7 +5,7 @@ import torch
 from hypothesis import strategies as st
 
 from vlib import stacks as S
-from vlib.core import Case, Facet, Refused, Violation
+from vlib.core import Case, Facet, Refused, Violation, guarded
 
 # thorough-tier budgets of every facet are multiplied by this factor (sized for ~5-8 min on 16 cores)
 THOROUGH_SCALE = 6
@@ -380,10 +380,10 @@ def check_static(spec):
 
 
 FACETS = [
-    Facet("modes", check, strategy=lambda tier: mode_spec(),
+    Facet("modes", guarded("modes", check), strategy=lambda tier: mode_spec(),
           budget={"quick": 4000, "thorough": 60000}, shards={"quick": 8, "thorough": 16},
           min_nontrivial={"quick": 600, "thorough": 6000}),
-    Facet("fused-permutations", check, enumerate=enumerate_perms, exhaustive=True, shards={"quick": 4, "thorough": 8},
+    Facet("fused-permutations", guarded("modes", check), enumerate=enumerate_perms, exhaustive=True, shards={"quick": 4, "thorough": 8},
           min_nontrivial={"quick": 300, "thorough": 600}),
     Facet("torchwrapper", check_torchwrapper, strategy=lambda tier: torch_spec(),
           budget={"quick": 500, "thorough": 5000}, shards={"quick": 1, "thorough": 4}, min_nontrivial={"quick": 100, "thorough": 500}),
